@@ -13,7 +13,7 @@ U3 = ("ite(platform_aware, ite(uf('is_facebook_url', 'Bool', %s), ite(%s is not 
 P0, P2, P3, P4 = ("unpack(g_S, %d, 'Str')" % i for i in (0, 2, 3, 4))
 NOSCHEME = "(strip_protocol or not %s)" % HASP
 SCHEME = "ite(%s, '', %s)" % (NOSCHEME, P0)
-QUERY0 = "ite(fix_common_mistakes and %s != '', uf('fix_common_query_mistakes', 'Str', %s), %s)" % (P3, P3, P3)
+QUERY0 = "ite(fix_common_mistakes and %s != '', uf('fix_common_query_mistakes', 'Str', uf('unquote_letters', 'Str', %s)), %s)" % (P3, P3, P3)
 HOST1 = "uf('decode_punycode_hostname', 'Str', some(g_S.hostname))"
 PORT = "ite(g_S.port == 80 or g_S.port == 443, None, g_S.port)"
 UPATH = "uf('safely_unquote_path', 'Str', %s)" % P2
@@ -101,6 +101,7 @@ MODULE = {
         "parse_facebook_url": dict(lib("parse_facebook_url", ["url"], ["Str"], "Opt[Obj]"), raises={"ValueError": None}),
         "normalize_youtube_url": dict(lib("normalize_youtube_url", ["url"], ["Str"], "Str"), raises={"ValueError": None}),
         "fix_common_query_mistakes": lib("fix_common_query_mistakes", ["query"], ["Str"], "Str"),
+        "unquote_letters": lib("unquote_letters", ["string"], ["Str"], "Str"),
         "decode_punycode_hostname": lib("decode_punycode_hostname", ["hostname"], ["Str"], "Str"),
         "normpath": lib("normpath", ["urlpath"], ["Str"], "Str"),
         "splitext": lib("splitext", ["p"], ["Str"], "Tuple[Str,Str]"),
